@@ -15,7 +15,7 @@ def harness_spec():
     park = Grid.from_positions([-4.0, -2.0], [0.5, 1.5])
     lay = Layout(static_traps={"traps": traps, "aux": aux}, fillable={"traps"}, has_cz={"traps"},
                  has_local={"aux"}, special_grid={"park": park})
-    return ArchSpec(layout=lay, float_constants={"pitch": 2.5}, int_constants={"rows": 3})
+    return ArchSpec(layout=lay, float_constants={"pitch": 2.5, "dup": 1.5, "origin": 0.0}, int_constants={"rows": 3, "dup": 2, "zero": 0})
 
 
 ZONES = {"traps": (4, 3), "aux": (3, 4)}
